@@ -762,6 +762,23 @@ func TestPanicBehaviour(t *testing.T) {
 			cases = append(cases, pc{"Panic() " + sc.name + ", finished with " + fn.name, func() { fn.f(sc.ev()) }, true, sc.write})
 		}
 	}
+	// a Panic() event the logger itself filtered out is no event at all: the call panics there and then,
+	// and nothing chained behind it (marshalers, Func and MsgFunc callbacks) ever runs
+	pcount := &counters{}
+	for _, sc := range srcs[1:6] { // level-gated, Nop, sampled out, zero-value Logger, Ctx fallback
+		sc := sc
+		cases = append(cases, pc{"Panic() " + sc.name + ", never finished", func() { _ = sc.ev() }, true, 0})
+		cases = append(cases, pc{"Panic() " + sc.name + ", with counting marshalers and callbacks behind it", func() {
+			defer func() {
+				if pcount.n != 0 {
+					pcount.n = 0
+					w.n = 99 // reported below as a wrong write count
+				}
+			}()
+			sc.ev().Object("o", cObj{pcount}).Stringer("s", cStringer{pcount}).Func(func(*zerolog.Event) { pcount.n++ }).MsgFunc(func() string { pcount.n++; return "boom" })
+		}, true, 0})
+	}
+	cases = append(cases, pc{"Panic() enabled, never finished", func() { l := zerolog.New(w); _ = l.Panic().Str("k", "v") }, false, 0})
 	for _, c := range cases {
 		w.n = 0
 		var pan interface{}
